@@ -347,8 +347,9 @@ class Labware:
             label = self._labels[-1]
         state = self._history[-1]
         # cut away the history
-        self._labels = self._labels[:-n]
-        self._history = self._history[:-n]
+        keep = max(0, len(self._labels) - n)
+        self._labels = self._labels[:keep]
+        self._history = self._history[:keep]
         # append the last state
         self._labels.append(label)
         self._history.append(state)
